@@ -469,6 +469,21 @@ def run_fractional(case, ctx):
             got = IB.fractional_abundance(MockData(case["rates"], el), el, *args)
         _check_fractions(ctx, got, [plain[k] for k in idx], "nodonor")
         _unchanged(ctx, keep)
+        if (len(idx) >= 2 and len(args) == 2 and all(isinstance(a_, np.ndarray) and a_.ndim == 1 and a_.flags.writeable for a_ in args)
+                and raw[idx[0]][:2] != raw[idx[-1]][:2]):
+            # a scan on the caller's own arrays: the same n_e / T_e array objects refilled in place (here: the points in reverse order)
+            # and handed to the same data source again - the answer follows the arrays' present content
+            src = MockData(case["rates"], el)
+            with ctx.cut("fractional_abundance(no donor)"):
+                IB.fractional_abundance(src, el, *args)
+                for a_ in args:
+                    a_[...] = a_[::-1].copy()
+                got2 = IB.fractional_abundance(src, el, *args)
+            _check_fractions(ctx, got2, [plain[k] for k in reversed(idx)], "nodonor")
+            for a_ in args:
+                a_[...] = a_[::-1].copy()
+            _unchanged(ctx, keep)
+            ctx.label("inputs-refilled-in-place")
         if donor is None and _nontrivial([plain[k] for k in idx], [plain[k] for k in idx], False):
             ctx.nt()
             ctx.label("nt")
